@@ -979,3 +979,10 @@ def x5(cx: Cx, ob: Ob) -> None:
     from .c10 import d5 as memoised_factories
 
     memoised_factories(cx, ob)
+
+
+@obligation("C13-X7", "IDX (shared with C01/C02): 'each listed (prefix, URI prefix) pair expands and compresses accordingly' - every loader ends in the constructor, whose lookup tables hold every name of every record, unconditionally and completely, on the constructor path and in _index", floor=4)
+def x7(cx: Cx, ob: Ob) -> None:
+    from .c01 import check_table_roles
+
+    check_table_roles(cx, ob, ["prefix_map", "synonym_to_prefix", "reverse_prefix_map", "trie"])
